@@ -310,7 +310,7 @@ def descent_p_vc(unigram=False):
             for x in [inv_at(cur["st"], cur["k"], O0), AX_A(d), an["witness"]([O0]), an["intro"]([O0], Jl), rec["base"](O0), rec["step"](O0, Jl),
                       AX_C(d, cs(d) + Jl, cs(d) + Wt(O0)), AX_C(d, cs(d) + Wt(O0), cs(d) + Jl)]:
                 I.ex.instance(x)
-            I.ex.oblige("descent.match_sum.runs_over_the_descendant_slots", z3.And(rec["T"] == S, an["n"] == S))
+            I.ex.oblige("structure.descent.match_sum.runs_over_the_descendant_slots", z3.And(rec["T"] == S, an["n"] == S))
             I.ex.oblige("descent.match_sum.base", lemma(O0, z3.IntVal(0)))
             I.ex.oblige("descent.match_sum.step", z3.Implies(z3.And(0 <= Jl, Jl < S, lemma(O0, Jl)), lemma(O0, Jl + 1)))
             I.ex.assume(z3.ForAll([x_, j_], lemma(x_, j_)))  # conclusion of the induction over the slot index, for every position
@@ -326,7 +326,7 @@ def descent_p_vc(unigram=False):
                 I.ex.oblige("descent.context.rows_are_the_last_tokens", z3.And(z3.BoolVal(len(hist_l.shape) == 2), z(hist_l.shape[0]) == N - 1, z(hist_l.shape[1]) == B, row_at(R0, Q0)))
                 I.ex.assume(z3.ForAll([r_, q_], row_at(r_, q_)))
                 it = I.eval(s.iter, f)
-                I.ex.oblige("descent.loop.range", z3.And(z(it.lo) == 1, z(it.hi) == N, z(it.step) == 1))
+                I.ex.oblige("structure.descent.loop.range", z3.And(z(it.lo) == 1, z(it.hi) == N, z(it.step) == 1))
                 st0 = {nm: ip.local(f, nm) for nm in names}
                 qn, wn, qp = X0 / V, X0 % V, X0 - M_
                 for x in [BASE_N(qn, wn), BASE_K(qn, wn), BASE_P(qn), BASE_P(qp), AX_U(wn), row_at(z3.IntVal(1), qn), row_at(z3.IntVal(1), qp),
